@@ -248,10 +248,12 @@ def check_creators(prog, res, tier, ne, sizes):
 
 # dimension grids of the high-level functions that allocate their own block (SD.d): scalar parameters by name,
 # fields of parameter-set structures by access path
-HL_SCALARS = {"len": [16, 24, 32], "count": [2, 5, 16], "threshold": [2, 3, 5], "l": [128, 192, 256], "key_len": [16, 32],
+HL_SCALARS = {"len": [16, 24, 32], "count": [2, 5, 16, 33, 100], "threshold": [2, 3, 5], "l": [128, 192, 256], "key_len": [16, 32],
               "mod": [10, 256, 65536], "iter": [1, 10000], "digit": [6, 8], "id_len": [0, 8, 40], "pwd_len": [0, 8],
-              "salt_len": [0, 8], "hash_len": [32, 48, 64], "ann_len": [0, 4, 60], "iv_len": [0, 16]}
-HL_ATOMS = {"l": [128, 192, 256]}
+              "salt_len": [0, 8], "hash_len": [32, 48, 64], "ann_len": [0, 4, 60], "iv_len": [0, 16],
+              "in_len": [0, 100, 2000], "edata_len": [40, 72], "privkey_len": [32, 64], "pubkey_len": [64, 128],
+              "cert_len": [100, 400], "certa_len": [100, 400], "epki_len": [100, 200]}
+HL_ATOMS = {"l": [96, 128, 192, 256]}
 
 
 def hl_grid(f, names_needed):
@@ -262,6 +264,8 @@ def hl_grid(f, names_needed):
             axes.append([("s", p["n"], v) for v in HL_SCALARS[p["n"]]])
         elif p.get("p") and re.search(r"_params\b", p.get("t") or ""):
             axes.append([("a", p["n"] + "->l", v) for v in HL_ATOMS["l"]])
+        elif p.get("p") and re.search(r"bake_cert", p.get("t") or ""):
+            axes.append([("a", p["n"] + "->len", v) for v in (0, 300)])
     for combo in itertools.product(*axes) if axes else [()]:
         scal = {n: v for k, n, v in combo if k == "s"}
         atoms = {n: v for k, n, v in combo if k == "a"}
@@ -292,14 +296,17 @@ def check_high_level_blobs(prog, res, ne):
             key = (f.name, f.unit if f.static else None, tuple(sorted(scal.items())), tuple(sorted(atoms.items())), "blob")
             bs = ne.blob_sizes.get(key)
             if bs is None:
-                why = "no blobCreate on the walked path"
-                break
+                continue        # the function leaves before allocating for this tuple (its own argument checks reject it)
             if bs[0] is None:
                 why = "requested size not evaluable: %s" % bs[1]
                 break
+            if bs[0] < 0:
+                continue        # a length below what the function's own (undecided) argument check admits
             npts += 1
             if need > bs[0] and (worst is None or need - bs[0] > worst[0]):
                 worst = (need - bs[0], dict(scal, **atoms), need, bs[0])
+        if not why and npts == 0:
+            why = "no grid tuple passes the function's argument checks up to its blobCreate"
         if why:
             und[f.name] = why
             continue
